@@ -3439,12 +3439,17 @@ class SFTPClientFile:
         data = b''
 
         if offset is not None:
-            if size is None or size < 0:
-                size = (await self._end()) - offset
+            read_to_end = size is None or size < 0
+
+            if read_to_end:
+                size = max((await self._end()) - offset, 0)
 
             try:
-                if self.read_len and size > \
-                        min(self.read_len, self._handler.limits.max_read_len):
+                # When asked for everything up to EOF, always go through the
+                # block reader, which keeps reading after a short read
+                if self.read_len and \
+                        (read_to_end or size >
+                         min(self.read_len, self._handler.limits.max_read_len)):
                     data = await _SFTPFileReader(
                         self.read_len, self._max_requests, self._handler,
                         self._handle, offset, size).run()
@@ -3512,7 +3517,7 @@ class SFTPClientFile:
 
         if offset is not None:
             if size is None or size < 0:
-                size = (await self._end()) - offset
+                size = max((await self._end()) - offset, 0)
         else:
             offset = 0
             size = 0
